@@ -118,27 +118,34 @@ func run_simulation(args []string) {
 		// === WRITE GENERATION OUTPUTS ===
 		// asynchronous
 		if outputFn != "" {
+			verifTrace("writer-spawned", i)
 			go func(g int) {
 				if g > 0 {
 					prevG := -1
 					for {
 						prevG = <-writingDone
+						verifTrace("token-received", g, prevG)
 
 						for _, modelName := range modelNames {
 							modelRef := models[modelName]
 							modelRef.PurgeGeneration(prevG)
 						}
+						verifTrace("purge", g, prevG)
 
 						if prevG == (g - 1) {
 							break
 						}
 						verbosePrintf("Waiting for generation %d, got generation %d, sleeping\n", g, prevG)
+						verifTrace("token-resent", g, prevG)
 						writingDone <- prevG
 						time.Sleep(time.Duration(1000 * 1000 * 500)) // Half a second
 					}
 				}
 
+				verifTrace("write-start", g)
 				writeGeneration(g, models, modelNames)
+				verifTrace("write-done", g)
+				verifTrace("token-sent", g)
 				writingDone <- g
 			}(i)
 		}
@@ -194,6 +201,7 @@ func run_simulation(args []string) {
 			data.AddToFloat64Array(destData, srcData)
 			nextLink++
 		}
+		verifTrace("links-applied", i)
 		genLinkEnd := time.Now()
 		genLinkElapsed := genLinkEnd.Sub(genLinkStart).Seconds()
 		totalTimeLinks += genLinkElapsed
@@ -211,6 +219,7 @@ func run_simulation(args []string) {
 	if outputFn != "" {
 		for {
 			genFinished := <-writingDone
+			verifTrace("main-final-received", genFinished)
 			if genFinished == (genCount - 1) {
 				verbosePrintf("Generation %d finished writing\n", genFinished)
 				break
